@@ -445,6 +445,7 @@ func (e *engine) confirmCorpus(base, cfg Config, mode, dir, only string) {
 
 	if !ok1 || !ok2 || !ok3 || !ok4 {
 		e.r.Add("corpus_confirmations_cut", 1)
+		e.r.Capped("a corpus confirmation run (" + dir + ", " + cfg.Label() + ") was cut by the watchdog: inconclusive")
 
 		return
 	}
